@@ -114,6 +114,20 @@ def check_entry(sc):
         iso5 = r5["model"].temperatureParameters._isIsothermal
         if iso1 != iso5:
             out.fail("isothermal_flag_differs", "the %s schedule is treated as isothermal=%r through model.setTemperature and isothermal=%r through the %s" % (sc["T"][0], iso1, iso5, what))
+    # the schedule handed to the setter after the model had already been set up under a schedule of the other kind with the same starting
+    # temperature (constant for a profile, a profile for a constant): nothing has been solved yet, so the run is that of the final schedule
+    T_start = float(H.schedule_value(sc["T"], 0.0))
+    sc0 = {k: v for k, v in sc.items() if k != "T_prior"}
+    total_h = sum(sc["durations"]) / 3600
+    sc0["T"] = ["const", T_start] if sc["T"][0] != "const" else ["array", [0.0, total_h], [T_start, T_start + 25.0]]
+    m6, th6 = H.build_model(sc0)
+    m6.setup()
+    m6.setTemperature(*H.make_temperature(sc["T"]))
+    r6 = H.run(sc, model=m6, therm=th6)
+    _compare(out, r1["model"], r6["model"], "schedule set before setup() vs set after setup() under a %s schedule (%s)" % (sc0["T"][0], sc["T"][0]))
+    iso6 = r6["model"].temperatureParameters._isIsothermal
+    if iso1 != iso6:
+        out.fail("isothermal_flag_differs", "the %s schedule is treated as isothermal=%r when set before setup() and isothermal=%r when set after it" % (sc["T"][0], iso1, iso6))
     pd = r1["model"].pData
     out.label("T_" + sc["T"][0], sc["iterator"])
     out.nt((sc["T"][0] != "const" or bool(sc.get("T_prior"))) and bool(np.any(pd.nucRate > 0)) and len(pd.time) > 10)
@@ -179,7 +193,7 @@ def clauses():
                rule="generator: toy binary single-phase scenario with a 2-5 break-point schedule (heat/cool/hold segments of 0.2-120 K, as array or function), maxTempChange in {0.1,0.5,1,3,10}, optional maxNonIsothermalDT, both iterators, 1-3 solve calls, cap 300; "
                     "oracle: recorded T = schedule(t) exactly; tabulated equilibrium composition inverted through the analytic solvus lies within maxTempChange of the current temperature; non-trivial: total change > 3 maxTempChange, some step changing T by less than maxTempChange, nucleation rate > 0 somewhere"),
         Clause("entry", _entry_scenario, check_entry, quick=60, thorough=1200, shrink=False,
-               rule="generator: the same scenarios; each run through the constructor parameter object and through the setter, and (for profiles) as array and as equivalent function; and (2 in 3) set after 1-2 other schedules (constant/array/function, the first possibly through the constructor) had been set on the same model; and through the typed setters of the parameter object (on an empty object given to the constructor; on the model's object after the earlier schedules); pData compared exactly, same isothermal/non-isothermal treatment; non-trivial: non-constant schedule or a prior schedule, with nucleation and > 10 steps"),
+               rule="generator: the same scenarios; each run through the constructor parameter object and through the setter, and (for profiles) as array and as equivalent function; and (2 in 3) set after 1-2 other schedules (constant/array/function, the first possibly through the constructor) had been set on the same model; and through the typed setters of the parameter object (on an empty object given to the constructor; on the model's object after the earlier schedules); and handed to the setter after setup() had been called under a schedule of the other kind with the same starting temperature; pData compared exactly, same isothermal/non-isothermal treatment; non-trivial: non-constant schedule or a prior schedule, with nucleation and > 10 steps"),
     ]
     try:
         from . import c13_diff
